@@ -99,8 +99,16 @@ def make_field(rng, mesh, nvdim, dtype=None, custom=None):
             kw["vdim_mapping"] = {labels[j]: mesh.region.dims[int(perm[j])] for j in range(nvdim)}
     if rng.random() < 0.3:
         kw["unit"] = gen.pick(rng, ["A/m", "T"])
+    # the declared dtype: left to the library, or stated explicitly (int fields keep
+    # an integer array only when declared)
     if dtype == "complex":
         kw["dtype"] = np.complex128
+    elif dtype == "int" and rng.random() < 0.6:
+        kw["dtype"] = gen.pick(rng, [int, np.int64, np.int32])
+        dtype = "int_declared"
+    elif dtype == "float" and rng.random() < 0.3:
+        kw["dtype"] = gen.pick(rng, [float, np.float64, np.float32])
+        dtype = "float_declared"
     valid = gen.rand_valid(rng, n)
     f = df.Field(mesh, nvdim=nvdim, value=arr, valid=valid, **kw)
     return f, dtype
@@ -336,14 +344,22 @@ def evaluate(ctx, node, fields, tree):
     elif node.op in ("dot", "cross"):
         a0 = np.abs(np.asarray(as_np(vals[0])))
         a1 = np.abs(np.broadcast_to(np.asarray(as_np(vals[1])), a0.shape))
-        if node.op == "dot":
-            bound = np.sum(a0 * a1, axis=-1, keepdims=True)
-        else:
-            bound = np.sum(a0, axis=-1, keepdims=True) * np.sum(a1, axis=-1, keepdims=True)
         with np.errstate(all="ignore"):
+            if node.op == "dot":
+                bound = np.sum(a0 * a1, axis=-1, keepdims=True)
+            else:
+                bound = np.sum(a0, axis=-1, keepdims=True) * np.sum(a1, axis=-1, keepdims=True)
+            # cells with a non-finite operand are not judged (inf - inf depends on the
+            # order of evaluation); precision is that of the result (float32 fields)
+            judged = np.isfinite(bound) & np.all(np.isfinite(a0) & np.isfinite(a1), axis=-1,
+                                                 keepdims=True)
+            eps = np.finfo(got.dtype).eps if got.dtype.kind in "fc" else EPS
+            eps = max(eps, np.finfo(exp.dtype).eps if exp.dtype.kind in "fc" else EPS)
             ok = got.shape == exp.shape and bool(np.all(
-                (np.abs(got - exp) <= 16 * EPS * bound) | (~np.isfinite(exp) & ~np.isfinite(got))))
-        ctx.check("C03.node.values", ok, **info, maxdiff=core.maxdiff(got, exp))
+                np.where(np.broadcast_to(judged, got.shape), np.abs(got - exp) <= 16 * eps * bound,
+                         True)))
+        ctx.check("C03.node.values", ok, **info, maxdiff=core.maxdiff(got, exp),
+                  judged=int(np.sum(judged)))
     else:
         ok = got.shape == exp.shape and np.array_equal(got, exp, equal_nan=True)
         if not ok and got.shape == exp.shape and np.iscomplexobj(exp):
@@ -368,7 +384,8 @@ def check_angle(ctx, vals, got, info):
         nb = np.sqrt(np.sum(b * b, axis=-1, keepdims=True))
         cos = np.sum(a * b, axis=-1, keepdims=True) / (na * nb)
         judged = np.isfinite(cos) & (np.abs(cos) < 1 - 1e-9) & (na > 0) & (nb > 0)
-        ok = got.shape == cos.shape and bool(np.all(np.abs(np.cos(got[judged]) - cos[judged]) <= 1e-12))
+        tol = 1e-12 if (a.dtype == np.float64 and b.dtype == np.float64) else 1e-5
+        ok = got.shape == cos.shape and bool(np.all(np.abs(np.cos(got[judged]) - cos[judged]) <= tol))
         ok = ok and bool(np.all((got[judged] >= 0) & (got[judged] <= np.pi)))
     ctx.check("C03.node.values", ok, **info, judged=int(np.sum(judged)))
 
